@@ -200,3 +200,5 @@ func bridgeReqs(ws []*goattypes.WithdrawalRequest) goattypes.BridgeRequests {
 }
 
 type cmtPub = cmtsecp.PubKey
+
+type wireTxOut = wire.TxOut
